@@ -110,7 +110,15 @@ def run(prop, mod, tier, seed, replay, log, broken, workdir, t0):
     if modelrun is not None:
         if replay:
             cases = replay_cases(replay, harness, modelrun, workdir, log)
-        else:
+            if any(c.impl == "REPLAY-UNSUPPORTED" for c in cases):
+                # the recorded case needs a live gateway, fake services or real waits: its stream is re-run
+                # with the recorded tier and seed instead (same generator, same inputs up to port numbers)
+                data = json.load(open(replay))
+                tier, seed = data.get("tier", tier), int(data.get("seed", seed))
+                print("replay: this kind of case is replayed by re-running its stream (tier=%s seed=%d)" % (tier, seed))
+                cases = []
+                replay = "stream"
+        if replay in (None, "stream"):
             for s in mod.STREAMS:
                 cs, st = core.run_stream(harness, modelrun, s, tier, seed, workdir, log,
                                          extra_args=getattr(mod, "HARNESS_ARGS", ()))
